@@ -120,9 +120,11 @@ Proof.
   - intros s g t _. apply ro_scope_enter.
   - intros s t _. apply ro_scope_enter.
   - apply ro_scope_exit.
-  - intros s c. apply ro_scope_cancel.
+  - intros s c _. apply ro_scope_cancel.
+  - intros s g. apply ro_scope_cancel.
+  - intros s t. apply ro_scope_cancel.
   - intros s c d _. apply ro_set_deadline.
-  - intros s c _. apply ro_same; reflexivity.
+  - intros s. apply ro_same; reflexivity.
   - apply ro_spawn.
   - intros s t f w.
     apply ro_trans with (suspend_on (fst (call_at s w (TSleep f))) t f); [|apply ro_same; reflexivity].
@@ -289,9 +291,11 @@ Proof.
   - intros s g t _. apply rh_scope_enter.
   - intros s t _. apply rh_scope_enter.
   - apply rh_scope_exit.
-  - intros s c. apply rh_scope_cancel.
+  - intros s c _. apply rh_scope_cancel.
+  - intros s g. apply rh_scope_cancel.
+  - intros s t. apply rh_scope_cancel.
   - intros s c d _. apply rh_set_deadline.
-  - intros s c _. apply rh_same; reflexivity.
+  - intros s. apply rh_same; reflexivity.
   - apply rh_spawn.
   - intros s t f w.
     apply rh_trans with (suspend_on (fst (call_at s w (TSleep f))) t f); [|apply rh_same; reflexivity].
